@@ -92,6 +92,7 @@ type Stats struct {
 	Steps        int            `json:"steps"`
 	Grants       int            `json:"grants"`
 	Deliveries   int            `json:"deliveries"`
+	Writes       int            `json:"writes"`
 	BytesIn      int64          `json:"bytes_in"`
 	BytesOut     int64          `json:"bytes_out"`
 	Preemptions  int            `json:"preemptions"`
@@ -116,6 +117,7 @@ type Kernel struct {
 	stubs     map[string]StubFactory
 	udp       map[string]*UDPSock
 	lockReqs  []*lockReq
+	writeReqs []*writeReq
 	owners    map[interface{}]*lockReq
 	gnames    map[uint64]string
 	lockSeq   int
@@ -217,6 +219,16 @@ func (k *Kernel) Violate(rule, format string, a ...interface{}) {
 	panic(abortSignal{"violation"})
 }
 
+// Note adds a line to the trace (only when tracing).
+func (k *Kernel) Note(format string, a ...interface{}) {
+	if k.TraceOn {
+		k.trace = append(k.trace, fmt.Sprintf(format, a...))
+	}
+}
+
+// Tracing reports whether the trace is recorded.
+func (k *Kernel) Tracing() bool { return k.TraceOn }
+
 // Abort stops the run without a verdict (budget exhausted, harness trouble).
 func (k *Kernel) Abort(reason string) { panic(abortSignal{reason}) }
 
@@ -287,6 +299,38 @@ func (k *Kernel) keysHook(site string, n int) []int {
 	return p
 }
 
+type writeReq struct {
+	c   *Conn
+	ch  chan struct{}
+	gid uint64
+}
+
+// parkWrite parks the calling goroutine until the driver grants its write on c.
+func (k *Kernel) parkWrite(c *Conn) {
+	r := &writeReq{c: c, ch: make(chan struct{}), gid: goid()}
+	k.mu.Lock()
+	k.writeReqs = append(k.writeReqs, r)
+	k.mu.Unlock()
+	<-r.ch
+}
+
+// goroutineBusy reports whether a goroutine with this name waits for or holds a cooperative mutex.
+func (k *Kernel) goroutineBusy(name string) bool {
+	k.mu.Lock()
+	defer k.mu.Unlock()
+	for _, r := range k.lockReqs {
+		if r.gname == name {
+			return true
+		}
+	}
+	for _, r := range k.owners {
+		if r.gname == name {
+			return true
+		}
+	}
+	return false
+}
+
 // ---- tasks: harness-initiated calls into lal run on their own goroutine -------------------------------------------------
 
 type Task struct {
@@ -323,6 +367,7 @@ func (k *Kernel) Go(name string, fn func()) *Task {
 type action struct {
 	kind string // grant | deliver | close | reset | window
 	req  *lockReq
+	wreq *writeReq
 	conn *Conn
 	udp  *udpAction
 	key  string // canonical sort key / description
@@ -356,6 +401,13 @@ func (k *Kernel) enabledActions() []action {
 	if contended > k.Stats.ContendedMax {
 		k.Stats.ContendedMax = contended
 	}
+	sort.SliceStable(k.writeReqs, func(i, j int) bool { return k.writeReqs[i].c.id < k.writeReqs[j].c.id })
+	for i, w := range k.writeReqs {
+		if i > 0 && k.writeReqs[i-1].c == w.c {
+			continue // one pending write per connection is offered at a time (arrival order within a conn)
+		}
+		acts = append(acts, action{kind: "write", wreq: w, key: "write " + w.c.name})
+	}
 	for _, c := range k.conns {
 		c.mu.Lock()
 		if !c.closedLocal {
@@ -385,14 +437,14 @@ func (k *Kernel) choose(acts []action) action {
 	pref := 0
 	found := false
 	for i, a := range acts {
-		if a.kind == "grant" && a.req.gid == k.lastGid {
+		if (a.kind == "grant" && a.req.gid == k.lastGid) || (a.kind == "write" && a.wreq.gid == k.lastGid) {
 			pref, found = i, true
 			break
 		}
 	}
 	if !found {
 		for i, a := range acts {
-			if a.kind == "grant" {
+			if a.kind == "grant" || a.kind == "write" {
 				pref, found = i, true
 				break
 			}
@@ -452,6 +504,18 @@ func (k *Kernel) apply(a action) {
 		k.mu.Unlock()
 		k.Stats.Grants++
 		close(r.ch)
+	case "write":
+		k.mu.Lock()
+		for i, x := range k.writeReqs {
+			if x == a.wreq {
+				k.writeReqs = append(k.writeReqs[:i], k.writeReqs[i+1:]...)
+				break
+			}
+		}
+		k.lastGid = a.wreq.gid
+		k.mu.Unlock()
+		k.Stats.Writes++
+		close(a.wreq.ch)
 	case "deliver":
 		n := a.conn.deliver(k)
 		k.Stats.Deliveries++
@@ -598,9 +662,14 @@ var runMu sync.Mutex
 // RunBubble executes scenario inside a fresh synctest bubble with the kernel's seams installed.
 // run is the function that enters the bubble (synctest.Test needs a *testing.T, so the caller supplies it).
 func RunBubble(seed uint64, p SchedParams, enter func(func()), scenario func(k *Kernel)) (res Result) {
+	return RunBubbleTrace(seed, p, false, enter, scenario)
+}
+
+func RunBubbleTrace(seed uint64, p SchedParams, trace bool, enter func(func()), scenario func(k *Kernel)) (res Result) {
 	runMu.Lock()
 	defer runMu.Unlock()
 	k := newKernel(seed, p)
+	k.TraceOn = trace
 	res.Seed = seed
 	finish := func() {
 		res.Violation = k.violation
